@@ -29,6 +29,8 @@ type e1Scenario struct {
 	Refs     []string
 	// Judge compares implementation and oracle at one node; nil = e1Judge.
 	Judge func(sc *e1Scenario, h *hist.Hist, cps map[string][]int, col *evid.Collector) map[string][]int
+	// keepSnaps: keep a store snapshot after every entry (C08 needs prefixes)
+	keepSnaps bool
 }
 
 type e1Replay struct {
@@ -67,6 +69,7 @@ func e1Start(sc *e1Scenario) (*hist.Hist, error) {
 	ms := memstore.New()
 	w := sc.World(ms)
 	h := hist.New(ms, w, sc.Policies)
+	h.KeepSnaps = sc.keepSnaps
 	for _, ev := range sc.Prefix {
 		if err := h.Apply(ev); err != nil {
 			return nil, fmt.Errorf("prefix event %s: %w", ev, err)
@@ -143,6 +146,9 @@ func e1Compare(sc *e1Scenario, h *hist.Hist, col *evid.Collector, mode, ref stri
 		col.Inc("impl_rejects")
 	}
 	col.Class("%s/%s/impl=%s/oracle=%s", sc.Name, mode, ec, strict)
+	if strict.OK && strict.Recovered > 0 && err == nil {
+		col.Inc("accepted_through_recovery")
+	}
 	rp := e1Replay{Scenario: sc.Name, Events: h.Events, Mode: mode, Ref: ref}
 	desc := fmt.Sprintf("[%s] %s(%s): impl=%s oracle=%s", h.Describe(), mode, ref, ec, strict)
 	prop := sc.Name[:3]
@@ -155,6 +161,15 @@ func e1Compare(sc *e1Scenario, h *hist.Hist, col *evid.Collector, mode, ref stri
 		col.Violation(fmt.Sprintf("%s:false-reject:%s:%s", prop, mode, ec), desc+" ("+err.Error()+")", rp)
 	case err == nil && !tip.Equal(wantTip):
 		col.Violation(prop+":wrong-tip:"+mode, desc+fmt.Sprintf(" tip=%s want=%s", tip, wantTip), rp)
+	case err != nil && !strict.OK:
+		// both reject: where a property names the error, compare its class
+		reason := strings.SplitN(strict.Reason, ":", 2)[0]
+		switch reason {
+		case "violation", "violation-not-repaired", "invalid-entry-not-skipped":
+			if ec != "verification-failed" && ec != "invalid-entry-not-skipped" && ec != "last-good-entry-skipped" {
+				col.Violation(fmt.Sprintf("%s:wrong-error-class:%s:%s-reported-as-%s", prop, mode, reason, ec), desc+" ("+err.Error()+")", rp)
+			}
+		}
 	}
 }
 
